@@ -3,6 +3,7 @@ package main
 import (
 	"fmt"
 	"go/token"
+	"go/types"
 	"strings"
 
 	"golang.org/x/tools/go/ssa"
@@ -285,6 +286,8 @@ func checkC07(cx *Ctx, r *Report) {
 	cx.checkVerifierArguments(r)
 	// --- base64 text is decoded as received, with the standard encoding --------------------------------------------------
 	cx.checkBase64Decoding(r)
+	// --- the octets verified have the shape the binding prescribes -----------------------------------------------------
+	cx.checkRedirectOctetsShape(r)
 	// --- certificate comparison ---------------------------------------------------------------------------------------
 	nCmp := 0
 	for _, fn := range w.Funcs {
@@ -552,4 +555,110 @@ func harmlessB64Rewrite(scope map[*ssa.Function]bool, via string) bool {
 		}
 	}
 	return found
+}
+
+// checkRedirectOctetsShape: the string ValidateRedirectSignature verifies is SAMLRequest=<request>[&RelayState=<relay
+// state>]&SigAlg=<algorithm> - the values in these positions, and the RelayState part exactly when a RelayState was
+// received (HTTP-Redirect binding, 3.4.4.1). Any other shape makes every correct signature fail.
+func (cx *Ctx) checkRedirectOctetsShape(r *Report) {
+	w, fx := cx.W, cx.Fx
+	vr := w.Func("serviceprovider.(*ServiceProvider).ValidateRedirectSignature")
+	if vr == nil {
+		r.Fail("R-VFG", "ValidateRedirectSignature:shape", "", "anchor not found")
+		return
+	}
+	lvf := cx.newVFlow("octets-shape", vr)
+	par := func(i int) string { return fmt.Sprintf("param:%s/#%d", w.FuncKey(vr), i) }
+	n, withRS, withoutRS := 0, 0, 0
+	// every string that is turned into the octets to verify (Sprintf, concatenation or a Builder alike)
+	var cands []ssa.Instruction
+	for _, b := range vr.Blocks {
+		for _, in := range b.Instrs {
+			if cv, ok := in.(*ssa.Convert); ok && isStringType(cv.X.Type()) {
+				if _, isSl := cv.Type().Underlying().(*types.Slice); isSl {
+					cands = append(cands, cv)
+				}
+			}
+		}
+	}
+	for _, ci := range cands {
+		call := ci.(*ssa.Convert)
+		parts := mergeLits(cx.strParts(call.X))
+		if len(parts) == 0 || !parts[0].IsLit || !strings.HasPrefix(parts[0].Lit, "SAMLRequest=") {
+			continue
+		}
+		n++
+		format := ""
+		for _, p := range parts {
+			if p.IsLit {
+				format += p.Lit
+			}
+		}
+		var desc []string
+		for _, p := range mergeLits(parts) {
+			if p.IsLit {
+				desc = append(desc, p.Lit)
+				continue
+			}
+			src := "?"
+			ls := lvf.Deep(lvf.Labels(p.Val)).leaves()
+			var ps []string
+			for _, l := range ls {
+				if strings.HasPrefix(l, "param:") {
+					ps = append(ps, l)
+				}
+			}
+			if len(ps) == 1 {
+				for i := 1; i <= 4; i++ {
+					if ps[0] == par(i) {
+						src = fmt.Sprintf("<#%d>", i)
+					}
+				}
+			}
+			desc = append(desc, src)
+		}
+		got := strings.Join(desc, "")
+		hasRS := strings.Contains(format, "RelayState=")
+		want := "SAMLRequest=<#1>&SigAlg=<#3>"
+		if hasRS {
+			want = "SAMLRequest=<#1>&RelayState=<#2>&SigAlg=<#3>"
+		}
+		bad := ""
+		if got != want {
+			bad = "the verified string is " + got + ", the binding prescribes " + want
+		}
+		// the RelayState part exactly when one was received
+		present, absent := false, false
+		for _, a := range fx.AtomsAt(ci) {
+			if a.Op != "EMPTY" {
+				continue
+			}
+			subj := emptySubject(a)
+			if subj == nil {
+				continue
+			}
+			for _, l := range lvf.Deep(lvf.Labels(subj)).leaves() {
+				if l == par(2) {
+					if a.Neg {
+						present = true
+					} else {
+						absent = true
+					}
+				}
+			}
+		}
+		if bad == "" && hasRS && !present {
+			bad = "the RelayState part is included on a path that has not found a RelayState: requests without RelayState fail verification"
+		}
+		if bad == "" && !hasRS && !absent {
+			bad = "the RelayState part is left out on a path that has not found the RelayState empty: requests with RelayState fail verification"
+		}
+		if hasRS {
+			withRS++
+		} else {
+			withoutRS++
+		}
+		r.Check(bad == "", "R-VFG", "ValidateRedirectSignature:shape@"+w.InstrPos(call), w.InstrPos(call), want, bad)
+	}
+	r.Check(withRS >= 1 && withoutRS >= 1, "R-VFG", "ValidateRedirectSignature:shape#", w.FnPos(vr), fmt.Sprintf("%d templates", n), "the verified string is not built in the two prescribed shapes (with and without RelayState)")
 }
